@@ -167,6 +167,30 @@ def run(R, tier):
                    + kv.blist(f'({kv.Z(I)}, {kv.Z(J)}, {e})' for I, J, e in ents))
             cases.append({'check': algs.with_alg(ref, chk), 'defs': [dfn], 'meta': {'spec': spec, 'obs': 'cayley'}})
             R.case((desc, 'cayley'))
+        # 3b. the Cayley table of a large algebra (lazily filled sign table, some entries already looked up): complete, and a sample of
+        #     its entries against the model
+        if d == 7:
+            cay = alg.cayley
+            names = list(alg.canon2bin)
+            R.case((desc, 'cayley-large'), True)
+            if len(cay) != len(names) ** 2:
+                R.violation({'clause': 'cayley', 'basis': algs.kind(spec)}, {'algebra': spec, 'entries': len(cay)},
+                            f'the Cayley table of Algebra({desc}) has {len(cay)} entries instead of {len(names) ** 2} (after {len(alg.signs)} sign look-ups)')
+            else:
+                ents = []
+                for _ in range(200):
+                    eI, eJ = rng.choice(names), rng.choice(names)
+                    s_ = cay.get((eI, eJ))
+                    if s_ is None:
+                        R.violation({'clause': 'cayley', 'basis': algs.kind(spec)}, {'algebra': spec, 'pair': [eI, eJ]},
+                                    f'the Cayley table of Algebra({desc}) has no entry for ({eI}, {eJ})')
+                        break
+                    e = '(0, None)' if s_ == '0' else f'({"(-1)" if s_[0] == "-" else "1"}, Some {kv.name(s_.lstrip("-"))})'
+                    ents.append((alg.canon2bin[eI], alg.canon2bin[eJ], e))
+                chk = ('forallb (fun t => match cayley_entry A (fst (fst t)) (snd (fst t)) with Ok v => '
+                       'pair_eqb Z.eqb (opt_eqb name_eqb) v (snd t) | Err _ => false end) '
+                       + kv.blist(f'({kv.Z(I)}, {kv.Z(J)}, {e})' for I, J, e in ents))
+                cases.append({'check': algs.with_alg(ref, chk), 'defs': [dfn], 'meta': {'spec': spec, 'obs': 'cayley (200 entries of a 7-dimensional algebra)'}})
         # 4. products of basis blades through the generated code, permuted spellings
         if d <= 4 and d >= 1:
             keys = list(alg.canon2bin.values())
